@@ -26,7 +26,11 @@ cleanup() {
     if [ -n "${BEN_KEEP:-}" ]; then rm -rf "$WT" "$BUILD"; else rm -rf "$WT" "$BUILD" "$OUT"; fi
     git -C /repo worktree prune >/dev/null 2>&1
 }
-trap cleanup EXIT
+# One run per scratch location: a second one would pull the worktree from under the first.
+LOCK="$WT.pid"
+if [ -f "$LOCK" ] && kill -0 "$(cat "$LOCK" 2>/dev/null)" 2>/dev/null; then echo "another run (pid $(cat "$LOCK")) is using $WT - set BEN_WORKTREE / _BUILD / _OUT to other paths"; exit 2; fi
+echo $$ > "$LOCK"
+trap 'cleanup; rm -f "$LOCK"' EXIT
 cleanup
 git -C /repo worktree add -q --detach "$WT" HEAD || { echo "cannot create worktree"; exit 2; }
 mkdir -p "$OUT"
